@@ -21,12 +21,10 @@ def mutant(pid, name, path, old, new, note):
 
 # ------------------------------------------------------------------ C03
 mutant("C03", "array-volume-without-scaling", "src/darsia/measure/integration.py",
-       """                        interpolation=cv2.INTER_AREA,  # conservative.
-                    )
+       """                    resize_axis(resize_axis(self.voxel_volume, rows, 0), cols, 1)
                     * scaling
                 )
-""", """                        interpolation=cv2.INTER_AREA,  # conservative.
-                    )
+""", """                    resize_axis(resize_axis(self.voxel_volume, rows, 0), cols, 1)
                 )
 """, "array volumes resized without the voxel-count scaling: wrong only for data at another resolution")
 mutant("C03", "array-cache-compared-with-native-shape", "src/darsia/measure/integration.py",
@@ -35,18 +33,12 @@ mutant("C03", "array-cache-compared-with-native-shape", "src/darsia/measure/inte
 """, "cache validity checked against the native shape: returning to native data after resized data keeps the resized volume")
 mutant("C03", "scale-before-resize-not-exception-safe", "src/darsia/measure/integration.py",
        """                self.cached_voxel_volume = (
-                    cv2.resize(
-                        self.voxel_volume,
-                        tuple(reversed(fetched_data.shape[:2])),
-                        interpolation=cv2.INTER_AREA,  # conservative.
-                    )
+                    resize_axis(resize_axis(self.voxel_volume, rows, 0), cols, 1)
                     * scaling
                 )
 """, """                self.cached_voxel_volume = self.voxel_volume * scaling
-                self.cached_voxel_volume = cv2.resize(
-                    self.cached_voxel_volume,
-                    tuple(reversed(fetched_data.shape[:2])),
-                    interpolation=cv2.INTER_AREA,  # conservative.
+                self.cached_voxel_volume = resize_axis(
+                    resize_axis(self.cached_voxel_volume, rows, 0), cols, 1
                 )
 """, "same arithmetic, but a failing resize leaves a scaled native-shape volume in the cache (needs a fault)")
 
@@ -132,14 +124,11 @@ mutant("C04", "failure-flag-only-for-solver-errors", "src/darsia/measure/wassers
        """            except Exception:
                 warnings.warn("Newton iteration abruptly stopped due to some error.")
                 iteration_failed = True
-                break
-""", """            except (RuntimeError, np.linalg.LinAlgError):
+""", """            except Exception as newton_error:
                 warnings.warn("Newton iteration abruptly stopped due to some error.")
-                iteration_failed = True
-                break
-            except Exception:
-                warnings.warn("Newton iteration abruptly stopped due to some error.")
-                break
+                iteration_failed = isinstance(
+                    newton_error, (RuntimeError, np.linalg.LinAlgError)
+                )
 """, "only solver-type errors flag the run as failed: converged=True after e.g. a ValueError / MemoryError in the inner solve")
 mutant("C04", "bregman-distance-of-new-iterate-kept-after-failure", "src/darsia/measure/wasserstein.py",
        """                    flux = solution_i[self.flux_slice]
@@ -231,10 +220,10 @@ mutant("C17", "subtraction-in-place", "src/darsia/image/image.py",
 
 # ------------------------------------------------------------------ C18
 mutant("C18", "save-drops-name", "src/darsia/image/image.py",
-       """        np.savez(str(Path(path)), array=self.img, metadata=self.metadata())
-""", """        metadata = self.metadata()
-        metadata.pop("name")
-        np.savez(str(Path(path)), array=self.img, metadata=metadata)
+       """            metadata=self.metadata(),
+            kind=type(self).__name__,
+""", """            metadata={k: v for k, v in self.metadata().items() if k != "name"},
+            kind=type(self).__name__,
 """, "image name not stored")
 mutant("C18", "npz-read-casts-to-float", "src/darsia/image/imread.py",
        """    array = npzdata["array"]
@@ -243,9 +232,21 @@ mutant("C18", "npz-read-casts-to-float", "src/darsia/image/imread.py",
     metadata = npzdata["metadata"].item()
 """, "reloaded array always float64")
 mutant("C18", "save-swallows-oserror", "src/darsia/image/image.py",
-       """        np.savez(str(Path(path)), array=self.img, metadata=self.metadata())
+       """        np.savez(
+            str(Path(path)),
+            array=self.img,
+            metadata=self.metadata(),
+            kind=type(self).__name__,
+            original_dtype=str(np.dtype(self.original_dtype)),
+        )
 """, """        try:
-            np.savez(str(Path(path)), array=self.img, metadata=self.metadata())
+            np.savez(
+                str(Path(path)),
+                array=self.img,
+                metadata=self.metadata(),
+                kind=type(self).__name__,
+                original_dtype=str(np.dtype(self.original_dtype)),
+            )
         except OSError as e:
             warn(f"Could not store image under {path}: {e}")
 """, "a failing write is reported as a warning only: the save is acknowledged (needs an I/O fault)")
@@ -278,11 +279,7 @@ def benign(pid, name, path, old, new, note):
 
 benign("C03", "memo-of-resized-volumes-from-native", "src/darsia/measure/integration.py",
        """                self.cached_voxel_volume = (
-                    cv2.resize(
-                        self.voxel_volume,
-                        tuple(reversed(fetched_data.shape[:2])),
-                        interpolation=cv2.INTER_AREA,  # conservative.
-                    )
+                    resize_axis(resize_axis(self.voxel_volume, rows, 0), cols, 1)
                     * scaling
                 )
 """, """                if not hasattr(self, "_resized_volumes"):
@@ -290,11 +287,7 @@ benign("C03", "memo-of-resized-volumes-from-native", "src/darsia/measure/integra
                 key = tuple(fetched_data.shape[:2])
                 if key not in self._resized_volumes:
                     self._resized_volumes[key] = (
-                        cv2.resize(
-                            self.voxel_volume,
-                            tuple(reversed(fetched_data.shape[:2])),
-                            interpolation=cv2.INTER_AREA,  # conservative.
-                        )
+                        resize_axis(resize_axis(self.voxel_volume, rows, 0), cols, 1)
                         * scaling
                     )
                 self.cached_voxel_volume = self._resized_volumes[key]
@@ -333,8 +326,12 @@ benign("C17", "weight-multiplies-into-the-copy", "src/darsia/image/arithmetics.p
         weighted_img.name = img.name
 """, "harmless extra assignment on the result")
 benign("C18", "compressed-npz", "src/darsia/image/image.py",
-       """        np.savez(str(Path(path)), array=self.img, metadata=self.metadata())
-""", """        np.savez_compressed(str(Path(path)), array=self.img, metadata=self.metadata())
+       """        np.savez(
+            str(Path(path)),
+            array=self.img,
+""", """        np.savez_compressed(
+            str(Path(path)),
+            array=self.img,
 """, "images stored compressed")
 benign("C18", "type-correction-keeps-path-type", "src/darsia/corrections/typecorrection.py",
        """        self.data_type = np.load(path, allow_pickle=True)["data_type"].item()
